@@ -106,7 +106,7 @@ HARNESSES = [
       bounds="T8, one symbolic reaction; single and double reaction / gene deletion of 3 items in 2 orders; 2 workers; all "
              "chunk->worker assignments and completion orders"),
     H("c14_fva_thorough", lambda E: c14_fva(E, procs=(2, 3), templates=(("T2", ("EX_A", "R1", "DM_B")), ("T3", ("EX_A", "R2"))), nitems=4),
-      tiers=("thorough",), thorough=dict(max_paths=400000, time_budget=700), witness_every=40,
+      tiers=("thorough",), thorough=dict(max_paths=400000, time_budget=500), witness_every=40,
       bounds="T2 (3 symbolic), T3 (2 symbolic); 4 items; 2 and 3 workers"),
     H("c14_deletion_thorough", lambda E: c14_deletion(E, procs=(2, 3)), tiers=("thorough",),
       thorough=dict(max_paths=200000, time_budget=400), witness_every=40, bounds="2 and 3 workers"),
